@@ -176,15 +176,17 @@ func (cf *CloudflarePublisher) PublishECH(ctx context.Context, records []Target,
 		}
 		params := strings.Split(v.Data.Value, " ")
 		var newParams []string
-		var oldValue string
+		var oldValues []string
 		for _, p := range params {
 			if k, v, ok := strings.Cut(p, "="); ok && k == "ech" {
-				oldValue = strings.Trim(v, `"`)
+				oldValues = append(oldValues, strings.Trim(v, `"`))
 				continue
 			}
 			newParams = append(newParams, p)
 		}
-		if newValue == oldValue {
+		// Nothing to do only when the record holds exactly one ech
+		// parameter and it is the current one.
+		if len(oldValues) == 1 && oldValues[0] == newValue {
 			result.Code = StatusNoChange
 			results = append(results, result)
 			continue
